@@ -455,7 +455,7 @@ pub fn run_case(rng: &mut Rng, profile: &str) -> CaseOut {
     let lang = &LSYM;
     let ns = rng.range(2, 4);
     let ops: Vec<&'static str> = match profile {
-        "deep" => vec!["f", "g", "k", "h", "var", "c", "d", "u", "w", "app", "pair", "lam", "sum", "let", "idx", "bb", "sb", "ite"],
+        "deep" => vec!["f", "g", "k", "h", "var", "c", "d", "u", "w", "app", "pair", "lam", "sum", "let", "idx", "bb", "sb", "bsl", "ite"],
         _ => vec!["f", "g", "h", "k", "q", "var", "c", "d", "u", "app", "lam", "sum", "bb"],
     };
     let cfg = GenCfg { lang, ops, ns, max_depth: if profile == "deep" { 3 } else { 2 }, max_names: 4, shadow: false };
